@@ -575,6 +575,15 @@ func ImportNodes(nc *nats.Conn, parent string, yamlData []byte, origin string, p
 
 	var importHelper func(data.NodeEdgeChildren) error
 	importHelper = func(node data.NodeEdgeChildren) error {
+		// the export leaves out "tombstone 0" edge points and SendNode only
+		// adds one to a node without any edge points; put it back, otherwise
+		// a node that is restored over its own deleted edge (IDs preserved)
+		// stays deleted if it has other edge points
+		if _, ok := node.EdgePoints.Find(data.PointTypeTombstone, ""); !ok {
+			node.EdgePoints = append(node.EdgePoints,
+				data.Point{Type: data.PointTypeTombstone, Value: 0})
+		}
+
 		err := SendNode(nc, node.NodeEdge, origin)
 		if err != nil {
 			return fmt.Errorf("Error sending node: %w", err)
